@@ -57,6 +57,7 @@ pub fn ref_expr(e: &MExpr) -> String {
         MExpr::Bool(b) => format!("(bool {b})"),
         MExpr::Bits(s) => format!("(bits {})", hex(s)),
         MExpr::Timing(n, u) => {
+            let u = if *u == "µs" { "us" } else { *u };
             if n.contains('.') {
                 format!("(timingf {} {u})", hex(&float_canon(n)))
             } else {
